@@ -7,6 +7,6 @@ CONSTANTS
   MaxCrashes = 2
   CrashPlans <- TwoCrashes
   Emit = TRUE
-INVARIANTS TypeOK AssignedOnce AtMostOnce FileOrBackupComplete CrashLosesOnlyInFlight NoLostJob RestartExact MutexInSync LockConsistent NoAbort EmitSchedule
+INVARIANTS TypeOK AssignedOnce AtMostOnce AssignedOncePerRun AtMostOncePerRun FileOrBackupComplete CrashLosesOnlyInFlight NoLostJob RestartExact MutexInSync LockConsistent NoAbort EmitSchedule
 VIEW View
 CHECK_DEADLOCK FALSE
